@@ -135,6 +135,16 @@ def typedGo (cOk : ConstSem → Bool) (fOk : Func → Bool) (resTy : Ty) : List 
 
 def TyEnv.init : TyEnv := { regs := [], decls := [] }
 
+/-- the two checks that the recorded findings F8 (a call with fewer arguments than the callee
+declares is accepted) and F9 (the value of a return nested in an if / loop body is not compared
+with the result type) can fail on programs the analyzer accepts; the rule set of C01 excludes both -/
+def TyBad.known (i : Instr) : TyBad → Bool
+  | .argCount => true
+  | .retType => match i with
+    | .jumpFnReturn _ => true
+    | _ => false
+  | _ => false
+
 /-- C04 on one function -/
 def typedStack (funcs : List (Name × Func)) (consts : List (Name × ConstSem)) (f : FnDecl) (stack : List Instr) : List String :=
   (typedGo (fun c => assocGet c.name consts == some c) (fun fd => assocGet fd.name funcs == some fd)
